@@ -173,3 +173,37 @@ def loop_header(fn, kinds=("WhileStmt", "ForStmt", "DoStmt", "CXXForRangeStmt"))
         if b.get("tk") in kinds and b.get("term", -1) >= 0 and len(cfg.succ[bid]) == 2:
             out.append((bid, fn.node(b["term"])))
     return out
+
+
+class Row:
+    """One way a function produces its result: branch atoms accumulated along the path (through
+    callees whose result is returned unchanged) and the final return statement."""
+
+    def __init__(self, atoms, ret, fn, chain):
+        self.atoms, self.ret, self.fn, self.chain = atoms, ret, fn, chain
+
+
+def return_rows(fb, fn, is_leaf, depth=2, _atoms=(), _chain=()):
+    """Rows of fn: a path whose return expression satisfies is_leaf(expr) is a row; a path that
+    returns the result of one in-repo callee (template instantiations included) is replaced by
+    that callee's rows, with the caller's atoms in front."""
+    out = []
+    for p in enumerate_paths(fn):
+        r = p.returns()
+        if r is None or r.get("e") is None:
+            continue
+        atoms = list(_atoms) + list(p.atoms)
+        if is_leaf(r["e"]):
+            out.append(Row(atoms, r, fn, list(_chain) + [fn.name]))
+            continue
+        callees = []
+        for x in walk(r["e"]):
+            if x.get("k") == "call":
+                g = fb.resolve_call(x)
+                if g is not None and g.body is not None and g.cfg_raw and g.key != fn.key:
+                    callees.append(g)
+        if len(callees) == 1 and depth > 0:
+            out.extend(return_rows(fb, callees[0], is_leaf, depth - 1, atoms, list(_chain) + [fn.name]))
+        else:
+            out.append(Row(atoms, r, fn, list(_chain) + [fn.name]))
+    return out
